@@ -20,7 +20,7 @@ from typing import Any, Dict, List, Optional, Tuple
 
 from ..cfg import cfg_of
 from ..consteval import ConstEval
-from ..flow import Sym, fpaths, attr_effects
+from ..flow import Sym, fpaths, attr_effects, allfacts
 from ..model import FuncInfo, attr_chain, norm, walk_no_nested
 from ..report import Checker
 from .forward import eval_response_constant
@@ -309,7 +309,7 @@ def run(ch: Checker) -> None:
         ch.paths += 1
         if p.exit_kind != 'return':
             continue
-        f = dict(p.facts())
+        f = allfacts(p)
         if f.get('self.upstream') is not True or f.get('self.upstream.closed') is not False:
             continue
         parsed = any(any(isinstance(c, ast.Call) and attr_chain(c.func) == 'self.pipeline_request.parse' for c in walk_no_nested(st)) for i, st in p.stmts())
@@ -334,7 +334,7 @@ def run(ch: Checker) -> None:
     for p in fpaths(gh):
         if p.exit_kind != 'return':
             continue
-        f = dict(p.facts())
+        f = allfacts(p)
         if f.get('self.request.state == httpParserStates.COMPLETE') is True and f.get('self.plugin') is True:
             n6 += 1
             sym = Sym(p)
@@ -362,7 +362,7 @@ def run(ch: Checker) -> None:
                                 if 'self.upstream.recv(' in t and '[' not in t.split('self.upstream.recv(')[0]:
                                     verdict = verdict or 'relay'
                                 elif t == 'PROXY_TUNNEL_ESTABLISHED_RESPONSE_PKT':
-                                    if dict(p.facts(i)).get('self.request.is_https_tunnel') is True:
+                                    if allfacts(p, i).get('self.request.is_https_tunnel') is True:
                                         verdict = verdict or 'ack'
                                     else:
                                         verdict = 'BAD: tunnel acknowledgement queued outside `is_https_tunnel`'
